@@ -356,6 +356,8 @@ class Verdict:
     def finish(self):
         wall = time.time() - self.t0
         self.cov["distinct_nontrivial"] = max(self.cov.get("distinct_nontrivial", 0), len(self._distinct))
+        if not self.cov["samples"]:
+            self.cov["samples"].append({"note": "no case matched this check's sampling rule in this run", "evaluations": self.cov["evaluations"]})
         self.cov["spec_drift"] = self.drift
         if self.drift_samples:
             self.cov["spec_drift_samples"] = self.drift_samples
